@@ -478,15 +478,41 @@ def _parse_attrs(ctx: Ctx, c: Collector) -> None:
         gt = T.guard_term(r.guards[-1])
         if gt[0] == "cmp" and gt[1] == "notin" and gt[2] == typ:
             continue          # an unknown simulator type is rejected up front (it crashed further down before)
-        conj = list(gt[1]) if gt[0] == "and" else [gt]
-        tys = [x for x in conj if x[0] == "cmp" and x[1] == "==" and typ in (x[2], x[3])]
-        nes = [x for x in conj if x[0] == "cmp" and x[1] == "!=" and EMPTY in (x[2], x[3])]
-        if len(tys) == 1 and len(nes) == 1 and len(conj) == 2:
-            lit = [y for y in (tys[0][2], tys[0][3]) if y != typ][0]
-            sub = [y for y in (nes[0][2], nes[0][3]) if y != EMPTY][0]
-            name = [k for k, v in res.items() if v == sub]
-            if lit[0] == "const" and name:
-                got.add((lit[1], name[0]))
+        # decided per simulator type: with the type fixed, the rejection must depend on exactly one "result is empty"
+        try:
+            lvs = boolfn.leaves(gt)
+        except boolfn.NotBoolean:
+            lvs = None
+        ty_l = [l for l in (lvs or []) if l[0] == "cmp" and l[1] == "==" and typ in (l[2], l[3]) and [y for y in (l[2], l[3]) if y != typ][0][0] == "const"]
+        em_l = [l for l in (lvs or []) if l[0] == "cmp" and l[1] == "==" and EMPTY in (l[2], l[3]) and any(v == [y for y in (l[2], l[3]) if y != EMPTY][0] for v in res.values())]
+        if lvs is not None and ty_l and em_l and len(ty_l) + len(em_l) == len(lvs) and len(em_l) <= 2:
+            ok_here = True
+            hits = set()
+            for ty in ("time-based", "event-based", "hybrid"):
+                a0 = {l: ([y for y in (l[2], l[3]) if y != typ][0][1] == ty) for l in ty_l}
+                dep = []
+                for l in em_l:
+                    # does emptiness of this result alone decide the rejection?
+                    outcomes = set()
+                    for bits in range(1 << len(em_l)):
+                        a = dict(a0)
+                        for i2, l2 in enumerate(em_l):
+                            a[l2] = bool(bits >> i2 & 1)
+                        outcomes.add((a[l], boolfn.eval_leaves(gt, a)))
+                    if outcomes == {(True, False), (False, True)}:
+                        dep.append(l)
+                    elif any(f for _e, f in outcomes) and not all(f == (not e_) for e_, f in outcomes):
+                        pass
+                fires_ever = any(boolfn.eval_leaves(gt, {**a0, **{l2: bool(bits >> i2 & 1) for i2, l2 in enumerate(em_l)}}) for bits in range(1 << len(em_l)))
+                if not fires_ever:
+                    continue
+                if len(dep) != 1:
+                    ok_here = False
+                    break
+                sub = [y for y in (dep[0][2], dep[0][3]) if y != EMPTY][0]
+                hits.add((ty, [k for k, v in res.items() if v == sub][0]))
+            if ok_here and hits:
+                got |= hits
                 if not (r.term[0] == "call" and r.term[1] == T.glob("ValueError")):
                     odd.append("a forbidden-kind rejection is not a ValueError")
                 continue
